@@ -114,9 +114,11 @@ void execute_plan(const Plan& plan) {
 		}
 		catch (const Skip&) { count(c_steps_noop); outcome.skipped = true; }
 		catch (const std::exception& e) {
+			if (g_profile == "C20") { count(c_exceptions_expected); continue; }      // C20 is about memory errors and undefined behaviour: an exception is neither
 			violation(g_profile + ".unexpected-exception", fin ? "<final>" : plan.steps[i].op, std::string("std::exception escaped the step: ") + e.what());
 		}
 		catch (...) {
+			if (g_profile == "C20") { count(c_exceptions_expected); continue; }
 			violation(g_profile + ".non-std-exception", fin ? "<final>" : plan.steps[i].op, "an exception that is not a std::exception escaped the step");
 		}
 	}
